@@ -40,6 +40,8 @@ CHECKS["C09"] = ("exploration", "5.C09", "crash-restart simulation: the dataset 
   "Seeded search over datasets (all six types, sizes at every length-encoding boundary up to 70000 elements, binary / marker / integer-like strings, all score classes, stream id limits, 16 databases, TTLs around the downtime) and downtimes; the oracle compares the stored dataset of the restarted process with the one saved, incl. deadlines to clock granularity. Datasets are unbounded, so they are sampled with forced boundary values.")
 CHECKS["C10"] = ("exploration", "5.C10", "fault injection at the libc disk boundary (errno, short write, crash before / after k bytes at the n-th open / write / rename of a save) with restart from the surviving directory; simulator-stepped background-save thread interleaved with client commands at guarded yield points; start-up from seeded damaged dump files under an allocation seam",
   "Seeded search over (F) the failure point and kind of one save, (S) interleavings of the snapshot thread's per-key steps with commands that change, re-type, expire and delete those keys, and (D) prefixes / byte corruptions of valid dumps. Oracles: the dump on disk is byte-identical after a failed save and always loads to exactly the previous or the new dataset; every (value, deadline) pair in a concurrent snapshot was held by that key at one recorded instant; damaged files never cause a panic, a hang or an allocation sized by a length field. Failure points are enumerated densely for the first operations and sampled beyond; interleavings and corruptions are sampled.")
+CHECKS["C11"] = ("exploration", "5.C11", "multi-connection simulation with appendonly on; at checkpoints the AOF bytes on the simulated disk are parsed by an independent RESP reader and replayed into a second, fresh simulated server; canonical dumps of both instances are compared; transient AOF write faults injected at the libc boundary",
+  "Seeded search over histories of the write-command catalogue through all execution paths (direct, MULTI/EXEC, EVAL/EVALSHA, immediate and served blocking pops), in one or two databases, with values that are not valid UTF-8, under all three fsync policies and with failing / short AOF writes; oracle: the AOF is a sequence of complete command frames and its replay yields the live dataset (values, presence of deadlines). Histories are sampled.")
 NOT_APPLICABLE = []
 def main():
     import json as _j
